@@ -978,6 +978,91 @@ def history_oracle(ctx, rng, nr, count, deep):
     return checks
 
 
+def refusal_oracle(ctx, rng, nr, deep):
+    """An UNFITTED model must refuse every observation entry point with exactly what check_fit() raises (same exception
+    type) - never another exception type, never a value - for every constructor form and every query container;
+    the refused call must leave the instance unfitted, and fitting it afterwards must give a working model."""
+    from copulas.multivariate import GaussianMultivariate
+    from copulas.univariate import BetaUnivariate, GaussianKDE, GaussianUnivariate
+    labels = rng.choice([['x', 'y'], [0, 1], ['a', 7, 'col c']])
+    d = len(labels)
+    data = nr.normal(size=(6, d)) * 3 + 1
+    frame = pd.DataFrame(data, columns=labels)
+    perm = list(reversed(range(d)))
+    containers = {
+        'frame': frame, 'frame-permuted': frame[[labels[i] for i in perm]], 'frame-one-row': frame.iloc[:1],
+        'frame-subset': frame[[labels[-1]]], 'frame-other-labels': pd.DataFrame(data, columns=[f'q{i}' for i in range(d)]),
+        'ndarray': data.copy(), 'ndarray-one-row': data[:1].copy(), 'ndarray-1d': data[0].copy(),
+        'ndarray-wrong-width': data[:, :1].copy(), 'list-of-lists': data.tolist(), 'list-1d': data[0].tolist(),
+        'series': frame.iloc[0], 'empty-frame': frame.iloc[:0], 'empty-ndarray': np.empty((0, d)), 'empty-list': [],
+        'scalar': 1.5, 'None': None,
+    }
+    factories = {
+        'default': lambda: GaussianMultivariate(),
+        'class': lambda: GaussianMultivariate(distribution=GaussianUnivariate),
+        'name': lambda: GaussianMultivariate(distribution='copulas.univariate.beta.BetaUnivariate'),
+        'instance': lambda: GaussianMultivariate(distribution=GaussianKDE()),
+        'dict-full': lambda: GaussianMultivariate(distribution={l: GaussianUnivariate for l in labels}),
+        'dict-partial': lambda: GaussianMultivariate(distribution={labels[-1]: BetaUnivariate}),
+        'dict-empty': lambda: GaussianMultivariate(distribution={}),
+        'random_state=int': lambda: GaussianMultivariate(random_state=rng.randrange(1000)),
+        'random_state=RandomState': lambda: GaussianMultivariate(distribution=GaussianUnivariate,
+                                                                 random_state=np.random.RandomState(5)),
+        'positional': lambda: GaussianMultivariate(GaussianUnivariate, 11),
+    }
+    observers = ['probability_density', 'pdf', 'log_probability_density', 'cumulative_distribution', 'cdf']
+    checks = 0
+
+    def kind_of(f):
+        try:
+            f()
+            return 'value'
+        except Exception as e:  # noqa
+            return type(e).__name__
+    for fname, make in factories.items():
+        want = kind_of(lambda: make().check_fit())
+        checks += 1
+        if want == 'value':
+            ctx.fail_input('check_fit', {'constructor': fname}, 'returns', 'an unfitted model fails check_fit()', 'check_fit:accepts-unfitted')
+            continue
+        calls = [(ep, cn, (lambda ep=ep, c=c: lambda m: getattr(m, ep)(c))()) for ep in observers for cn, c in containers.items()]
+        calls += [('sample', 'no-args', lambda m: m.sample()), ('sample', 'num_rows=3', lambda m: m.sample(3)),
+                  ('sample', 'conditions', lambda m: m.sample(2, conditions={labels[0]: 0.5})),
+                  ('to_dict', '', lambda m: m.to_dict())]
+        if not deep:       # quick: every entry point x every container for two constructor forms, a sample for the others
+            if fname not in ('default', 'dict-partial'):
+                calls = rng.sample(calls, 12) + calls[-4:]
+        for ep, cn, f in calls:
+            m = make()
+            with np.errstate(all='ignore'):
+                got = kind_of(lambda: f(m))
+            still = kind_of(m.check_fit)
+            checks += 1
+            ctx.count('refusal.' + ep)
+            if got != want or still != want or m.fitted:
+                ctx.fail_input(ep, {'constructor': fname, 'container': cn, 'labels': [tok(l) for l in labels],
+                                    'query': vc.jsonable(containers[cn]) if cn in containers and not isinstance(containers[cn], (pd.DataFrame, pd.Series))
+                                    else (vc.jsonable(containers[cn].to_numpy()) if cn in containers else None)},
+                               {'raised': got, 'check_fit() raises': want, 'check_fit() after the refused call': still,
+                                'fitted flag after the call': bool(m.fitted)},
+                               'an unfitted model refuses with exactly the exception check_fit() raises (NotFittedError), '
+                               'never another exception type nor a value, and stays unfitted',
+                               f'{ep}:unfitted-not-refused-with-NotFittedError')
+        # a refused instance is still usable: fit it and compare with a never-queried twin
+        m, twin = make(), make()
+        kind_of(lambda: m.cumulative_distribution(frame))
+        kind_of(lambda: m.probability_density(data))
+        checks += 1
+        km, kt = kind_of(lambda: m.fit(frame)), kind_of(lambda: twin.fit(frame))
+        ok = km == kt and (km != 'value' or same_bits(np.atleast_1d(m.probability_density(frame)),
+                                                      np.atleast_1d(twin.probability_density(frame))))
+        if not ok:
+            ctx.fail_input('probability_density', {'constructor': fname, 'history': 'refused cdf(q), pdf(q); fit(A)'},
+                           'differs from a never-queried twin', 'a refused call leaves no state behind',
+                           'probability_density:refused-call-leaves-state')
+    return checks
+
+
 def search(ctx, deep):
     rng = ctx.rng('search')
     nr = ctx.nprng('search')
@@ -988,7 +1073,8 @@ def search(ctx, deep):
     before = len(ctx.failing)
     checks = oracles(ctx, models, rng, nr, nbatch=6 if deep else 1, deep=deep)
     hchecks = history_oracle(ctx, ctx.rng('history'), ctx.nprng('history'), 16 if deep else 4, deep)
-    ctx.support = {'oracle_checks': checks, 'history_checks': hchecks, 'models': len(models),
+    rchecks = refusal_oracle(ctx, ctx.rng('refusal'), ctx.nprng('refusal'), deep)
+    ctx.support = {'oracle_checks': checks, 'history_checks': hchecks, 'refusal_checks': rchecks, 'models': len(models),
                    'failures': len(ctx.failing) - before, 'deep': deep}
 
 
